@@ -430,12 +430,13 @@ def evCode : Ev Nat → Nat × Nat × Nat × Nat
   | .eh i => (2, i, 0, 0)
 
 /-- does the model reproduce one evaluated row? -/
-def rowAgrees (r : Bool × List (Nat × Nat × Nat × Bool) × Bool × Option Nat × Nat × Option Nat × List (Nat × Nat) ×
+def rowAgrees (r : Nat × Bool × List (Nat × Nat × Nat × Bool) × Bool × Option Nat × Nat × Option Nat × List (Nat × Nat) ×
     List (Nat × Nat × Nat × Nat) × Nat) : Bool :=
-  let res := result ⟨r.1, 4⟩ (stubStages 0 r.2.1) 1
-  res.success == r.2.2.1 && res.final == r.2.2.2.1 && res.completed == r.2.2.2.2.1 &&
-  res.blockedAt == r.2.2.2.2.2.1 &&
-  res.results.map (fun x => (x.idx, statusCode x.status)) == r.2.2.2.2.2.2.1 &&
-  res.log.map evCode == r.2.2.2.2.2.2.2.1 && res.amplification == (r.2.2.2.2.2.2.2.2 : Rat)
+  match r with
+  | (mx, halt, pipe, ok, fin, comp, blk, sts, log, amp) =>
+    let res := result ⟨halt, (mx : Rat)⟩ (stubStages 0 pipe) 1
+    res.success == ok && res.final == fin && res.completed == comp && res.blockedAt == blk &&
+    res.results.map (fun x => (x.idx, statusCode x.status)) == sts &&
+    res.log.map evCode == log && res.amplification == (amp : Rat)
 
 end Operon.Cascade
